@@ -205,6 +205,22 @@ pub fn check_outcomes(w: &WorldInner, a: &Analysis, run: &RunResult, tcfg: &Trac
                     }
                 }
             }
+            // A late copy of a response to a probe of an earlier round which carried the very
+            // sequence this probe carries (the 16 bit sequence space wrapped in between: with a
+            // high initial sequence the rounds reuse the same numbers) is, to any observer of the
+            // packet alone, a response to this probe: not judged.
+            if let (ProbeStatus::Complete(c), Some(wid)) = (st, g.wire) {
+                let rcv = crate::sim::st_ns(c.received);
+                if let Some(rd) = rt.reads.iter().find(|r| r.t <= rcv && rcv <= r.t_next) {
+                    if rd.class == PktClass::Late && rd.wire != Some(wid) {
+                        let seq_of = |x: usize| crate::forge::get_sequence(tcfg, &w.wires[x].bytes);
+                        if rd.wire.is_some_and(|old| seq_of(old).is_some() && seq_of(old) == seq_of(wid)) {
+                            o.count("late_copies_naming_a_reused_sequence_not_judged", 1);
+                            continue;
+                        }
+                    }
+                }
+            }
             match (exp, st) {
                 (Expected::Skipped, ProbeStatus::Skipped) => o.hit("skipped_iff_addr_in_use"),
                 (Expected::Failed, ProbeStatus::Failed(_)) => o.hit("failed_iff_send_failed"),
